@@ -57,6 +57,9 @@ void verif_invalid_pointer(uint64_t name, uint64_t alloc, uint64_t ptr)
     (void)name; (void)alloc;
     handler_calls++; handler_ptr = ptr;
 #ifdef HANDLER_STOPS
+#ifdef WITNESS
+    ASSERT(0, "WITNESS: invalid-pointer handler reached");
+#endif
     ASSUME(0);   /* a handler may end the program; then nothing after it matters */
 #endif
 }
@@ -237,7 +240,11 @@ void harness(void)
 {
     HAVOC_HEAP();
     w_install_handlers();
+#if NS_MIN == NS_MAX
+    ns = NS_MIN;                      /* one query per node size: a constant lets divisions by node_size_ fold */
+#else
     ns = nondet_u8(); ASSUME(ns >= NS_MIN && ns <= NS_MAX);
+#endif
 #ifdef NS_ALIGN8
     ASSUME((ns & 7) == 0);
 #endif
@@ -251,16 +258,21 @@ void harness(void)
     /* Placement.  The lists never look at absolute addresses, only at their order (ordered list: also relative to
        the sentinels inside the list object) and at adjacency of nodes, so the layout is one of a few concrete
        arrangements chosen by the solver: objects below / between / above the blocks, blocks in either order,
-       blocks adjacent or separated by a gap.  (Alignment residues matter for the bump allocators, which keep
+       blocks adjacent (when block 1 is full size) or separated by a gap; -DLAY / -DGAP select it.  (Alignment residues matter for the bump allocators, which keep
        symbolic addresses; see stack_step.c.) */
-    uint8_t lay = nondet_u8(), gap8 = nondet_u8();
-    ASSUME(lay < 4 && gap8 < 2);
-    uint64_t gap = gap8 ? 16 : 0;
-    uint64_t r1 = (len1 + 15) & ~UINT64_C(15), r2 = (len2x + 15) & ~UINT64_C(15);
+#ifndef LAY
+#define LAY 0
+#endif
+#ifndef GAP
+#define GAP 0
+#endif
+    /* compile-time layout (one query per layout): every object address is concrete, blocks sit at a fixed stride */
+    uint64_t gap = GAP ? 16 : 0;
+    uint64_t r1 = (mul_small(NB, ns) + 15) & ~UINT64_C(15), r2 = (mul_small(NB2 + 1, ns) + 15) & ~UINT64_C(15);
     uint64_t L, L2;
-    if (lay == 0)      { L = HEAP_BASE; L2 = L + LSIZE; B1 = L2 + LSIZE; B2 = B1 + (gap ? r1 + gap : len1); }
-    else if (lay == 1) { B1 = HEAP_BASE; L = B1 + r1; L2 = L + LSIZE; B2 = L2 + LSIZE; }
-    else if (lay == 2) { B2 = HEAP_BASE; B1 = B2 + (gap ? r2 + gap : len2x); L = B1 + r1; L2 = L + LSIZE; }
+    if (LAY == 0)      { L = HEAP_BASE; L2 = L + LSIZE; B1 = L2 + LSIZE; B2 = B1 + (gap ? r1 + gap : mul_small(NB, ns)); }
+    else if (LAY == 1) { B1 = HEAP_BASE; L = B1 + r1; L2 = L + LSIZE; B2 = L2 + LSIZE; }
+    else if (LAY == 2) { B2 = HEAP_BASE; B1 = B2 + (gap ? r2 + gap : mul_small(NB2 + 1, ns)); L = B1 + r1; L2 = L + LSIZE; }
     else               { L2 = HEAP_BASE; B2 = L2 + LSIZE; B1 = B2 + r2 + gap; L = B1 + r1; }
     ASSUME((B1 & (al - 1)) == 0 && (B2 & (al - 1)) == 0);
     ASSUME(IN_HEAP(L, LSIZE) && IN_HEAP(L2, LSIZE) && IN_HEAP(B1, len1) && IN_HEAP(B2, len2x));
@@ -416,5 +428,7 @@ void harness(void)
 #else
 #error "OP"
 #endif
+#ifndef HANDLER_STOPS
     WITNESS_END();
+#endif
 }
